@@ -320,6 +320,7 @@ class Net:
         self.rng = random.Random(seed)
         self.saved = []
         self.cwd = os.getcwd()
+        self.allowed = None       # optional set of frozenset({hostA, hostB}): every other connection attempt is refused
 
     def __enter__(self):
         from skepticoin.networking import local_peer as LP, remote_peer as RP, manager as MG
@@ -355,6 +356,9 @@ class Net:
 
     def connect(self, sock, addr):
         target = self.listeners.get(tuple(addr))
+        if target is not None and self.allowed is not None and \
+                frozenset((sock.local_addr[0], addr[0])) not in self.allowed:
+            target = None          # the topology is fixed: hosts that are not linked cannot reach each other
         if target is None:
             sock.refused = True
             return
